@@ -153,11 +153,26 @@ def subDone (ns : NState) (S : SetM) (k : Nat) : Bool :=
   | some (m, tid) => (match ns.members[m]? with | some M => pcOf M tid == .done | none => true)
   | none => true
 
-/-- a `next()` on a finished iterator returns at once (no statement of the member runs) -/
+def pullIdx : Pull → Nat
+  | .create k => k
+  | .next k => k
+
+/-- the pull would run a statement of the member: a `next()` on an iterator that has not finished, an `iter(x)`
+    whose `__iter__` has not run yet -/
+def pullLive (ns : NState) (S : SetM) (p : Pull) : Bool :=
+  match S.subs[pullIdx p]? with
+  | some (m, tid) =>
+    (match ns.members[m]? with
+     | some M => (match p with
+                  | .next _ => !(pcOf M tid == .done)
+                  | .create _ => RSet.inDispatch (pcOf M tid))
+     | none => false)
+  | none => false
+
+/-- pulls that run no statement of the member (a `next()` on a finished iterator returns at once) are skipped -/
 def normPulls (ns : NState) (S : SetM) : List Pull → List Pull
   | [] => []
-  | .next k :: rest => if subDone ns S k then normPulls ns S rest else .next k :: rest
-  | .create k :: rest => .create k :: rest
+  | p :: rest => if pullLive ns S p then p :: rest else normPulls ns S rest
 
 /-- the single lock of the `shared` variant: held iff some object's lock field is set -/
 def anyLock (ns : NState) : Bool :=
@@ -183,8 +198,7 @@ def setStep (ns : NState) (si : Nat) (t : Tid) : Option (NState × PC) :=
       match S.pulls with
       | [] => none
       | p :: rest =>
-        let k := match p with | .create k => k | .next k => k
-        match S.subs[k]? with
+        match S.subs[pullIdx p]? with
         | none => none
         | some (m, tid) =>
           match ns.members[m]? with
